@@ -1190,7 +1190,7 @@ inline string_view url::host() const {
     // "hostname:port"
     const std::size_t b = part_end_[HOST_START];
     const std::size_t e = is_null(PORT) ? part_end_[HOST] : part_end_[PORT];
-    return { norm_url_.data() + b, e - b };
+    return { norm_url_.data() + b, e > b ? e - b : 0 };
 }
 
 inline string_view url::hostname() const {
